@@ -203,7 +203,13 @@ class ClientRunner:
      vizier_client.environment_variables.server_endpoint, vizier_client.time) = saved
 
   def _trial(self, tid):
-    return clients.Trial(self.study._client, int(tid))  # pylint: disable=protected-access
+    # a worker keeps the handle of its trial across calls: ONE clients.Trial object per (client, trial id) for the
+    # whole program (whatever a handle remembers between calls is part of what is checked)
+    cache = self.__dict__.setdefault('_trial_handles', {})
+    key = (id(self.study._client), int(tid))  # pylint: disable=protected-access
+    if key not in cache:
+      cache[key] = (self.study._client, clients.Trial(self.study._client, int(tid)))  # pylint: disable=protected-access
+    return cache[key][1]
 
   def _call(self, s):
     op, study = s['c'], self.study
